@@ -44,3 +44,46 @@ pub fn run_batch(model: &str, lines: &[String]) -> Result<Vec<String>, String> {
     }
     Ok(out)
 }
+
+/// a long-lived driver process answering one request at a time (used by the shrinker, started before
+/// the harness has grown large so that no big address space has to be forked)
+pub struct ModelProc {
+    child: std::process::Child,
+    stdin: std::process::ChildStdin,
+    stdout: BufReader<std::process::ChildStdout>,
+}
+
+impl ModelProc {
+    pub fn start(model: &str) -> Result<ModelProc, String> {
+        let mut child = Command::new(model)
+            .stdin(Stdio::piped())
+            .stdout(Stdio::piped())
+            .stderr(Stdio::null())
+            .spawn()
+            .map_err(|e| format!("cannot start model driver {}: {}", model, e))?;
+        let stdin = child.stdin.take().unwrap();
+        let stdout = BufReader::new(child.stdout.take().unwrap());
+        Ok(ModelProc { child, stdin, stdout })
+    }
+    pub fn ask(&mut self, lines: &[String]) -> Result<Vec<String>, String> {
+        let mut out = Vec::with_capacity(lines.len());
+        for l in lines {
+            self.stdin.write_all(format!("@{}\n", l).as_bytes()).map_err(|e| e.to_string())?;
+            self.stdin.flush().map_err(|e| e.to_string())?;
+            let mut resp = String::new();
+            self.stdout.read_line(&mut resp).map_err(|e| e.to_string())?;
+            if resp.is_empty() {
+                return Err("model driver closed its output".into());
+            }
+            out.push(resp.trim_end_matches('\n').to_string());
+        }
+        Ok(out)
+    }
+}
+
+impl Drop for ModelProc {
+    fn drop(&mut self) {
+        let _ = self.child.kill();
+        let _ = self.child.wait();
+    }
+}
